@@ -7,7 +7,8 @@
    desc_of t (what the caller writes) and inst_of t (what construction makes of it), Proofs/RegTie.v.
    Calls that leave a method are parameters of the generated definitions (open recursion); they are instantiated
    with the MODEL-defined functions
-       ff_of       v = Ok (filter_fields (tree_of v))                      the nested filter_fields
+       ff_of       v = Ok (ret_of (filter_fields (tree_of v)))             the nested filter_fields (ret_of: the
+                                                                           model's Junk result is Python's None)
        new_map_of  v = build_ok (tree_of v) ? Ok (inst_of ..) : TypeError  FieldActionMap(v)   (v a dict)
        new_arr_of  v = likewise                                            FieldActionArray(v) (v a list)
        flat_of     v = Ok (flat_paths (itree_of v))                        v.flatten()
@@ -130,12 +131,14 @@ Print Assumptions tie_construct_model.
 (* ---------------------------------------------------------------------------------------------- *)
 (* flatten                                                                                           *)
 
-Ltac flat_body_tac :=
-  let k := fresh "k" in let f := fresh "f" in let s := fresh "s" in
-  intros [k f] s; unfold flat_body; cbn [fst snd]; cbv zeta;
+Ltac flat_core k f :=
+  unfold flat_body; cbn [fst snd key_truthy key_is_str]; cbv zeta;
   destruct f; cbn [is_amap is_aarr orb]; binds; fin;
   dbind; binds; fin;
   (rewrite (for_res_yield _ (pre k)); [binds; fin|intros [? ?] _ ?; reflexivity]).
+Ltac flat_body_tac :=
+  let k := fresh "k" in let f := fresh "f" in let s := fresh "s" in
+  intros [k f] _ s; flat_core k f.
 
 Theorem tie_map_flatten : forall l, wf (Map l) ->
   gen_map_flatten flat_of (inst_of (Map l)) = flat_of (inst_of (Map l)).
@@ -144,7 +147,10 @@ Proof.
   unfold flat_of at 2. rewrite itree_of_inst. cbn [inst_of is_amap orb]. fold (i_items l).
   unfold gen_map_flatten.
   rewrite (mapping_items_dict (i_items l)).
-  - cbn [bind]. erewrite (flat_map_loop _ l); [binds; fin|]. flat_body_tac.
+  - cbn [bind]. erewrite (flat_map_loop _ l); [binds; fin|].
+    (* the keys of a FieldActionMap are (non-empty) strings *)
+    intros x Hx s. apply in_map_iff in Hx. destruct Hx as ([k0 x0] & <- & _). cbn [fst snd].
+    generalize (inst_of x0). intros f. flat_core (KStr k0) f.
   - rewrite i_items_keys. apply nodup_kstr. exact Hnd.
   - rewrite tie_map_iter. reflexivity.
   - intros k. rewrite tie_map_getitem. reflexivity.
